@@ -177,4 +177,30 @@ def c14_6(c: Ctx) -> None:
     check_dispatch_entry_points(c)
 
 
+@ob('C14.7', 'MPT', 'an accepted event has a consumer: whenever _start() finds the bus not running it creates a run-loop task before it sets _is_running = True — unconditionally, not only when '
+    'no task object exists yet (a run loop that ended without stop(), e.g. because the application cancelled all tasks, leaves a finished task behind; the next dispatch must start a '
+    'new one or the event it enqueues is never processed)')
+def c14_7(c: Ctx) -> None:
+    st = c.unit(SVC, 'EventBus._start')
+    g = c.cfg(st)
+    self_ = st.params()[0]
+    ons = [n for n in g.live_nodes() if n.kind == 'stmt' and isinstance(n.ast, ast.Assign) and U(n.ast.targets[0]) == f'{self_}._is_running' and isinstance(n.ast.value, ast.Constant) and n.ast.value.value is True]
+    c.floor(len(ons), 1, '`_is_running = True` in _start')
+    rl = c.unit(SVC, 'EventBus._run_loop')
+    spawns = {n.id for n in g.live_nodes() if any(call_name(x) in ('create_task', 'ensure_future') and x.args and isinstance(x.args[0], ast.Call) and c.an.fm.resolve_call(x.args[0], st) is rl
+                                                   for x in q.node_calls(n))}
+    if not spawns:
+        c.fail(st, '_start() never creates a run-loop task', 'nothing consumes the queue')
+        return
+    from sa.cfg import search
+
+    for on in ons:
+        p = search([(g.entry, ())], is_target=lambda n, d: n is on, is_barrier=lambda n, d: n.id in spawns, edge_ok=lambda n, e, d: None if e.is_exc else d)
+        if p is None:
+            c.ok(where(st, on.ast), 'every path to `_is_running = True` creates a run-loop task first')
+        else:
+            c.fail(st, '`_is_running = True` reachable without creating a run-loop task', 'a bus whose run loop has ended (without stop()) is marked running again without a consumer: events dispatched afterwards are accepted and '
+                   'never processed', node=on.ast, witness=c.path(g.entry, p))
+
+
 OBLIGATIONS = ob.obs
